@@ -526,7 +526,40 @@ func clauseCountSweep(w *h.W, fam string) {
 	}
 }
 
+// F8: predicates whose clauses stand in several runs of every length (discontiguous/1), with other predicates of
+// every size between the runs: each predicate answers with exactly its own clauses, in text order.
+func c01F8(w *h.W) {
+	maxRun := w.Pick(17, 34)
+	for k := 1; k <= maxRun; k++ {
+		for m := 1; m <= 3; m++ {
+			for second := 1; second <= 3; second++ {
+				if !w.Mine() {
+					continue
+				}
+				cls := []T{rd(":- discontiguous(p/1)")}
+				n := 0
+				for i := 0; i < k; i++ {
+					n++
+					cls = append(cls, rd(fmt.Sprintf("p(%d)", n)))
+				}
+				for i := 0; i < m; i++ {
+					cls = append(cls, rd(fmt.Sprintf("q(%d, X) :- r(X)", i)))
+				}
+				cls = append(cls, rd("r(a)"), rd("r(b)"))
+				for i := 0; i < second; i++ {
+					n++
+					cls = append(cls, rd(fmt.Sprintf("p(%d)", n)))
+				}
+				cls = append(cls, rd("s(X, Y) :- p(X), q(Y, _)"), rd("p(last)"))
+				pc := &h.ProgCase{Steps: []h.ProgStep{h.Consult(cls...), h.Query(rd("p(X)"), 80), h.Query(rd("q(I, X)"), 20), h.Query(rd("r(X)"), 5), h.Query(rd("s(X, Y)"), 200), h.Query(rd("q(0, a)"), 3)}}
+				runProgCase(w, "F8", pc, k+m+second)
+			}
+		}
+	}
+}
+
 func c01Work(w *h.W) {
+	c01F8(w)
 	c01F7(w)
 	c01F6(w)
 	c01F3(w)
@@ -539,7 +572,7 @@ func c01Work(w *h.W) {
 func init() {
 	h.Register(&h.Check{
 		ID: "C01",
-		Rule: "bounded-exhaustive program enumeration: F1 all clause sequences of length <= K over a 21-clause menu for p/1, q/1 (facts, rules, direct and mutual recursion, nested disjunction, call/N, lists) x 7 queries; F2 all head terms of depth <= 2 over {a,X,Y,[],f/1,g/2,'.'/2} x all call arguments of depth <= 1 and vice versa, all bodies building such a term, all pairs of depth-1 heads; F3 all clause bodies of <= L items over 17 goal shapes (call/N, nested ;/, , closures) as clause, top-level disjunct and query, and every call/N split of an 8-ary goal; F4 string literals in heads vs list calls under each double_quotes flag; F5 every construction of a list from nested partial lists against head list patterns; F6 sweep of the head size 0..34 (70) against 7 top-level disjunctive bodies, in clauses and through call/1 with as many extra free variables; F7 sweep of the number of clauses 1..24 (40) of a predicate whose first head arguments are of every kind (atoms, numbers, strings, lists, compounds, variables, non-ASCII), loaded and asserted, called with 29 first arguments in every representation. Non-trivial = the reference produces at least one answer or an error; distinct = distinct program+queries text.",
+		Rule: "bounded-exhaustive program enumeration: F1 all clause sequences of length <= K over a 21-clause menu for p/1, q/1 (facts, rules, direct and mutual recursion, nested disjunction, call/N, lists) x 7 queries; F2 all head terms of depth <= 2 over {a,X,Y,[],f/1,g/2,'.'/2} x all call arguments of depth <= 1 and vice versa, all bodies building such a term, all pairs of depth-1 heads; F3 all clause bodies of <= L items over 17 goal shapes (call/N, nested ;/, , closures) as clause, top-level disjunct and query, and every call/N split of an 8-ary goal; F4 string literals in heads vs list calls under each double_quotes flag; F5 every construction of a list from nested partial lists against head list patterns; F6 sweep of the head size 0..34 (70) against 7 top-level disjunctive bodies, in clauses and through call/1 with as many extra free variables; F7 sweep of the number of clauses 1..24 (40) of a predicate whose first head arguments are of every kind (atoms, numbers, strings, lists, compounds, variables, non-ASCII), loaded and asserted, called with 29 first arguments in every representation; F8 predicates whose clauses stand in two or three runs (discontiguous/1) of every length 1..17 (34) with 1..3 clauses of other predicates between them. Non-trivial = the reference produces at least one answer or an error; distinct = distinct program+queries text.",
 		Explanation: "state = one generated program (loaded into a fresh real interpreter); transition = one query run to exhaustion (or 8..40 answers) on the real interpreter whose full answer sequence, terminal status, error term and output are compared with the reference machine; traces_validated = programs whose every query was decided (reference within its step budget)",
 		Assumptions: []string{
 			"reference: ref/solve (goal-stack / choice-point machine with a destructive trail, ISO 13211-1 semantics, self-checked against the ISO examples for cut, catch/throw, all-solutions and database predicates)",
